@@ -133,6 +133,20 @@ def c01(pid, tier, t0):
         "ftruncate answers with success (default environment)"])
 
 
+@check("C04")
+def c04(pid, tier, t0):
+    exe = nv.build_harness("c04_lbuf", "asan", ["c04_lbuf.c", "peek_lbuf.c"], replace=["lbuf"], wraps=WRAPS)
+    res = nv.run_shards(exe, ["tier=" + tier, "deadline=%d" % dl(tier)], nv.NCPU, dl(tier) + 120)
+    return nv.finish(pid, tier, t0, res, {
+        "rule": "line-buffer interface: operations = lbuf_edit(text,beg,end) for every 0<=beg<=end<=len+1 and text in {NULL,\"\",a\\n,b\\nc\\n,d} (buffers capped at 6 lines), "
+                "new command (lbuf_modified), undo, redo, saved(0), saved(1); all sequences up to depth, each rebuilt by replay on a fresh buffer; plus runs of 130 edits/undos/redos across the 128-entry history growth; "
+                "distinct = distinct canonical (text, history) states reached",
+        "depth_bound": res.stats.get("depth", res.stats.get("bfs_depth_completed")),
+        "explanation": "after every step lbuf_len/lbuf_get/lbuf_cp, the status of undo/redo and the dirty answer of lbuf_modified() are compared with a reference that keeps whole-text snapshots grouped by command",
+    }, ["an lbuf_edit() call other than (NULL text, empty range) counts as a history entry (interface convention)",
+        "marks are not part of the compared state"])
+
+
 def replay(path):
     print("replay artefact:")
     print(open(path).read())
